@@ -1,4 +1,5 @@
 import TurVerif.Model.Sql
+import TurVerif.Model.Like
 import Driver.Util
 import Driver.SExpr
 namespace Driver.Sql
@@ -212,6 +213,14 @@ def step (db : Db) (ws : List String) : Db × String :=
           | .error x => s!"err {showErr x}")
       | _, _ => (db, "bad-op")
     | _ => (db, "bad-op")
+  | ["like", th, ph] =>
+    match bytesOfHex th, bytesOfHex ph, strOfHex th, strOfHex ph with
+    | some tb, some pb, some ts, some ps =>
+      let impl := match TurVerif.Like.likeImpl tb pb with
+        | some true => "1" | some false => "0" | none => "fuel"
+      let spec := if likeSpec ps.toList ts.toList then "1" else "0"
+      (db, s!"impl={impl} spec={spec}")
+    | _, _, _, _ => (db, "bad-op")
   | _ => (db, "bad-op")
 
 end Driver.Sql
